@@ -46,4 +46,9 @@ TEXT = {
   "level_text": "Exploration: random macro libraries (0-5 parameters, any subset with defaults, bodies that test/print/default parameters, assign probed names, call sibling macros) and call sites with fewer/equal/more arguments in loops, blocks and conditionals; each case is rendered through all five ways of reaching a macro and every output must equal the reference interpreter's. The grid 0..4 parameters x default subsets x 0..6 arguments is enumerated exhaustively.",
   "level_note": "Macro bodies read only parameters and names they assign (README says macros have their own scope; the code lets outer variables through, so that is not relied upon either way). Print-position calls only.",
  },
+ "C17": {
+  "technique": "fault enumeration over generated template structures: every spy-callback invocation (and every loader call) of a fault-free render is made to fail in turn; oracle = errors.Is(err, sentinel) + empty output, through Render, RenderTo and debug mode; plus injected unresolvable names behind guard spies",
+  "level_text": "Fault enumeration: for template sets from five structural generators (control flow, inheritance with parent(), include chains, macro libraries via five call forms, apply/spaceless) with spy functions/filters/tests injected at every kind of expression position, each single invocation of the fault-free render (all when <= 64, else 64 evenly spaced) is failed once and the top-level call must return an error wrapping the sentinel and no output, via Render, RenderTo and debug mode. Same for every loader call of inheritance/include/import structures, for one unresolvable filter/function/test/template name at an evaluated position, and for built-in filter names re-registered with failing callbacks under each tag that applies a filter itself.",
+  "level_note": "Single faults only (one failing invocation per render). Faults are injected through the public callback and loader interfaces. Tolerances exempt by the statement (undefined variables/attributes, ignore missing on a missing template) are excluded by construction.",
+ },
 }
